@@ -4,14 +4,23 @@ import numpy as np
 import impl, gen, oracle
 from impl import quiet, SemanticPair, ConnectedComponentsInstanceApproximator, CCABackend
 
-RULE = ("1-D/2-D/3-D semantic maps built from objects with 1-3 semantic labels (incl. labels >= 256 and 65536), diagonal "
+RULE = ("half of the cases through long-lived approximator objects shared across inputs of different dimensionality; pairs with the same foreground divided into different semantic labels; 1-D/2-D/3-D semantic maps built from objects with 1-3 semantic labels (incl. labels >= 256 and 65536), diagonal "
         "(edge/corner) contacts and multi-label adjacency, dtypes {uint8,uint16,int32,int64}, negatives (must be rejected) x "
         "backend {default, cc3d, scipy}; exhaustive {0,1,2}-maps of shape 2x3 (quick) / 3x3, 2x2x2 (thorough); "
         "non-trivial = face and full connectivity, or label-aware and label-blind reading, give different partitions")
 
 
-def approx(pred, ref, backend):
-    ap = ConnectedComponentsInstanceApproximator(cca_backend=impl.BACKEND[backend])
+_SHARED = {}
+_HIST = []
+
+
+def approx(pred, ref, backend, shared=False):
+    """`shared`: reuse one long-lived approximator object per backend setting across inputs of different
+    dimensionality (an approximator must not remember anything from earlier calls)"""
+    if shared:
+        ap = _SHARED.setdefault(backend, ConnectedComponentsInstanceApproximator(cca_backend=impl.BACKEND[backend]))
+    else:
+        ap = ConnectedComponentsInstanceApproximator(cca_backend=impl.BACKEND[backend])
     with quiet():
         return ap.approximate_instances(SemanticPair(pred, ref))
 
@@ -38,13 +47,17 @@ def check_side(arr, out, n_reported, backend_eff):
     return f, comps
 
 
-def one_case(ctx, pred, ref, backend, src):
+def one_case(ctx, pred, ref, backend, src, shared=False):
     inp = {"shape": list(pred.shape), "dtype": str(pred.dtype), "pred": gen.arr_json(pred.astype(np.int64)),
-           "ref": gen.arr_json(ref.astype(np.int64)), "backend": backend, "src": src}
+           "ref": gen.arr_json(ref.astype(np.int64)), "backend": backend, "src": src, "shared_approximator": shared,
+           "history": list(_HIST[-3:]) if shared else []}
+    if shared:
+        _HIST.append([list(pred.shape), backend])
+        ctx.count("shared_approximator_object")
     eff = backend or ("cc3d" if pred.ndim >= 3 else "scipy")
     neg = (pred < 0).any() or (ref < 0).any()
     try:
-        up = approx(pred, ref, backend)
+        up = approx(pred, ref, backend, shared)
     except AssertionError:
         ctx.case(inp, False)
         ctx.count("rejected_negative" if neg else "rejected_other")
@@ -109,7 +122,13 @@ def run_cases(ctx, n, tag):
         if np.dtype(dtype).kind == "i" and rng.random() < 0.05:
             (pred if rng.random() < 0.5 else ref)[tuple(rng.randrange(s) for s in shape)] = -1
         backend = rng.choice([None, None, "cc3d", "scipy"])
-        one_case(ctx, pred, ref, backend, f"{tag}{i}")
+        if rng.random() < 0.25:
+            # same foreground, different division into semantic labels
+            fg = pred != 0
+            ref = np.zeros_like(pred)
+            ref[fg] = [rng.choice([1, 2, 3]) for _ in range(int(fg.sum()))]
+            ctx.count("same_foreground_different_labels")
+        one_case(ctx, pred, ref, backend, f"{tag}{i}", shared=rng.random() < 0.5)
 
 
 def exhaustive(ctx, shape):
@@ -143,8 +162,23 @@ def corpus(ctx):
         one_case(ctx, p, r, b, "corpus.large-ref-labels")
 
 
+def many_components(ctx):
+    """more than 255 components on one side, few on the other (label dtype must fit both)"""
+    a = np.zeros((41, 41), np.uint8)
+    a[::2, ::2] = 1                      # 441 isolated pixels
+    a[0:4, :] = 0
+    b = np.zeros((41, 41), np.uint8)
+    b[10:14, 10:14] = 1
+    b[30, 30] = 2
+    for backend in (None, "cc3d"):
+        one_case(ctx, a, b, backend, "corpus.many-pred-components")
+        one_case(ctx, b, a, backend, "corpus.many-ref-components")
+    ctx.count("more_than_255_components")
+
+
 def run(ctx):
     corpus(ctx)
+    many_components(ctx)
     exhaustive(ctx, (2, 3) if ctx.quick else (3, 3))
     if not ctx.quick:
         exhaustive(ctx, (2, 2, 2))
